@@ -1427,7 +1427,13 @@ impl<'s, X: Item> VecExec<'s, $K, X> {
                         return false;
                     }
                 };
-                let mode = op.a % 11;
+                let mode = op.a % 13;
+                let ro = <$K as Kind<X>>::ref_ops();
+                if mode >= 11 && ro.is_none() {
+                    // the reference-left forms exist for the leaf element shapes only
+                    self.form = Form::V(v);
+                    return false;
+                }
                 let keep_last = (op.b >> 8) & 1 == 1;
                 let what = match mode {
                     0 => "v + w",
@@ -1440,12 +1446,14 @@ impl<'s, X: Item> VecExec<'s, $K, X> {
                     7 => "Sum over a source of vectors",
                     8 => "Product over a source of vectors",
                     9 => "v.sum()",
-                    _ => "v.product()",
+                    10 => "v.product()",
+                    11 => "&v + w",
+                    _ => "&v + &w",
                 };
                 self.st.probes[P_ARITH] += 1;
                 // how many further operand vectors the operation takes
                 let extra = match mode {
-                    0 | 1 | 2 | 3 | 4 => 1,
+                    0 | 1 | 2 | 3 | 4 | 11 | 12 => 1,
                     6 => 2,
                     7 | 8 => ((op.b & 0xff) % 3) as usize,
                     _ => 0,
@@ -1478,7 +1486,7 @@ impl<'s, X: Item> VecExec<'s, $K, X> {
                 // planned panic anything may be destroyed by the unwinding
                 let faulty = op_panic > 0 || zero_panic > 0 || src_panic > 0;
                 for g in mine.iter() {
-                    g.set_owner(if keep_last && !matches!(mode, 3 | 5) { OWN_DOOMED } else { OWN_MAIN });
+                    g.set_owner(if keep_last && !matches!(mode, 3 | 5 | 11 | 12) { OWN_DOOMED } else { OWN_MAIN });
                 }
                 if matches!(mode, 7 | 8 | 9 | 10) {
                     // a chain of calls: which operand survives depends on the shape of the chain
@@ -1486,7 +1494,13 @@ impl<'s, X: Item> VecExec<'s, $K, X> {
                         g.set_owner(OWN_DOOMED);
                     }
                 }
-                let allow = m(OWN_DOOMED) | m(OWN_FRESH) | if faulty { m(OWN_MAIN) } else { 0 };
+                if mode == 11 {
+                    // &v + w: the element's operator hands w's lanes back; v is only borrowed
+                    for g in og[0].iter() {
+                        g.set_owner(OWN_MAIN);
+                    }
+                }
+                let allow = if mode == 12 && !faulty { 0 } else { m(OWN_DOOMED) | m(OWN_FRESH) | if faulty { m(OWN_MAIN) } else { 0 } };
                 crate::arith::arm(op_panic, keep_last);
                 enum Out<V, X> {
                     V(V),
@@ -1494,13 +1508,15 @@ impl<'s, X: Item> VecExec<'s, $K, X> {
                     Assigned,
                 }
                 let mut kept_v: Option<<$K as Kind<X>>::V> = None; // mode 4: the vector stays with the harness
-                let mut kept_w: Option<<$K as Kind<X>>::V> = None; // mode 3: the borrowed operand
+                let mut kept_w: Option<<$K as Kind<X>>::V> = None; // modes 3, 12: the borrowed right operand
+                let mut kept_b: Option<<$K as Kind<X>>::V> = None; // modes 11, 12: the borrowed left operand
                 let mut unpulled: Vec<<$K as Kind<X>>::V> = Vec::new();
                 let mut pulled = 0usize;
                 let mut src_fired = false;
                 let (r, zfired) = {
                     let kept_v = &mut kept_v;
                     let kept_w = &mut kept_w;
+                    let kept_b = &mut kept_b;
                     let unpulled = &mut unpulled;
                     let pulled = &mut pulled;
                     let src_fired = &mut src_fired;
@@ -1570,7 +1586,16 @@ impl<'s, X: Item> VecExec<'s, $K, X> {
                                 }
                             }
                             9 => Out::X(<$K as Kind<X>>::v_elem_sum(v)),
-                            _ => Out::X(<$K as Kind<X>>::v_elem_product(v)),
+                            10 => Out::X(<$K as Kind<X>>::v_elem_product(v)),
+                            11 => {
+                                *kept_b = Some(v);
+                                Out::V((ro.as_ref().unwrap().ref_add_val)(kept_b.as_ref().unwrap(), operands.pop().unwrap()))
+                            }
+                            _ => {
+                                *kept_b = Some(v);
+                                *kept_w = operands.pop();
+                                Out::V((ro.as_ref().unwrap().ref_add_ref)(kept_b.as_ref().unwrap(), kept_w.as_ref().unwrap()))
+                            }
                         }
                     })
                 };
@@ -1593,12 +1618,13 @@ impl<'s, X: Item> VecExec<'s, $K, X> {
                     }
                     std::mem::forget(kept_v);
                     std::mem::forget(kept_w);
+                    std::mem::forget(kept_b);
                     std::mem::forget(unpulled);
                     self.model.clear();
                     return true;
                 }
                 // the zero()/one() accumulator of Sum / Product: fresh elements, one per lane, in creation order
-                for (k, id) in fresh.iter().enumerate() {
+                for (k, id) in fresh.iter().filter(|id| tok::origin_of(**id) == Some(Origin::Default)).enumerate() {
                     lane_of.insert(*id, k % (n * X::W));
                 }
                 // --- ownership law of the calls, whatever the shape of the computation: every call is
@@ -1635,6 +1661,13 @@ impl<'s, X: Item> VecExec<'s, $K, X> {
                             alive.remove(a);
                         }
                     }
+                    if !last && c.kept != crate::arith::NONE && !args.contains(&c.kept) {
+                        // the call made a new value (`&a + &b`): it is alive and belongs to the operands' lane
+                        alive.insert(c.kept);
+                        if let Some(l) = lane {
+                            lane_of.insert(c.kept, l);
+                        }
+                    }
                 }
                 if let Some(b) = bad {
                     tok::raise(V5_ORDER, format!("{} on a {}: {}", what, <$K as Kind<X>>::NAME, b));
@@ -1645,6 +1678,7 @@ impl<'s, X: Item> VecExec<'s, $K, X> {
                     }
                     std::mem::forget(kept_v);
                     std::mem::forget(kept_w);
+                    std::mem::forget(kept_b);
                     std::mem::forget(unpulled);
                     self.model.clear();
                     return true;
@@ -1706,7 +1740,7 @@ impl<'s, X: Item> VecExec<'s, $K, X> {
                             7 | 8 => (1 + extra - n_unpulled) * n * X::W,
                             _ => n * X::W,
                         };
-                        let real_calls = log.iter().filter(|c| c.borrowed != 0b1).count();
+                        let real_calls = log.iter().filter(|c| !(c.borrowed == 0b1 && c.args[1] == crate::arith::NONE)).count();
                         if real_calls != want_calls {
                             tok::raise(V5_ORDER, format!("{} on a {}: the element's operator was called {} times, {} lanes were to be combined", what, <$K as Kind<X>>::NAME, real_calls, want_calls));
                         }
@@ -1723,6 +1757,17 @@ impl<'s, X: Item> VecExec<'s, $K, X> {
                                 }
                             }
                             let _ = guard_nopanic("drop of the borrowed operand", m(OWN_DOOMED), 0, move || drop(w));
+                        }
+                        if let Some(b) = kept_b.take() {
+                            for i in 0..n {
+                                if <$K as Kind<X>>::v_field(&b, i).grp() != mine[i] {
+                                    tok::raise(V5_ORDER, format!("{}: the borrowed left operand changed at position {}", what, i));
+                                }
+                            }
+                            for g in mine.iter() {
+                                g.set_owner(OWN_DOOMED);
+                            }
+                            let _ = guard_nopanic("drop of the borrowed left operand", m(OWN_DOOMED), 0, move || drop(b));
                         }
                         let survivors: Vec<u32> = self.model.iter().flat_map(|g| g.iter().collect::<Vec<u32>>()).collect();
                         let doomed: Vec<Grp> = everything.iter().chain(fresh_grps.iter()).copied().filter(|g| !g.iter().any(|id| survivors.contains(&id))).collect();
@@ -1796,6 +1841,26 @@ impl<'s, X: Item> VecExec<'s, $K, X> {
                             }
                             let _ = guard_nopanic("drop of the borrowed operand", m(OWN_DOOMED), 0, move || drop(w));
                         }
+                        if let Some(b) = kept_b.take() {
+                            for i in 0..n {
+                                if <$K as Kind<X>>::v_field(&b, i).grp() != mine[i] {
+                                    tok::raise(V5_ORDER, format!("{}: the borrowed left operand changed at position {}", what, i));
+                                }
+                                for id in mine[i].iter() {
+                                    if tok::state_of(id) != Some(St::Live) {
+                                        tok::raise(V8_UNEXPECTED_DROP, format!("{}: id {} of the borrowed left operand was destroyed", what, id));
+                                    }
+                                }
+                            }
+                            if !tok::has_violation() {
+                                for g in mine.iter() {
+                                    g.set_owner(OWN_DOOMED);
+                                }
+                                let _ = guard_nopanic("drop of the borrowed left operand", m(OWN_DOOMED), 0, move || drop(b));
+                            } else {
+                                std::mem::forget(b);
+                            }
+                        }
                         if let Some(v) = kept_v.take() {
                             // v += w was cut short: v is still a vector of live values, one per lane
                             self.st.probes[P_ARITH_ASSIGN_PANIC_CONTINUES] += 1;
@@ -1829,6 +1894,7 @@ impl<'s, X: Item> VecExec<'s, $K, X> {
                     Err(t) => {
                         std::mem::forget(kept_v);
                         std::mem::forget(kept_w);
+                        std::mem::forget(kept_b);
                         self.model.clear();
                         self.unexpected(what, t)
                     }
